@@ -15,7 +15,8 @@
 (***************************************************************************)
 EXTENDS Naturals, Sequences, FiniteSets, TLC, Json
 
-CONSTANTS Schemas     \* [class |-> Seq([name, mode \in {"req","opt","list"}, nsel])]
+CONSTANTS Schemas,    \* [class |-> Seq([name, mode \in {"req","opt","list"}, nsel])]
+          Families    \* subset of {"subsets", "vary", "pairs"}
 
 VARIABLES cls, family, sel
 vars == <<cls, family, sel>>
@@ -30,9 +31,14 @@ Subsets(c) == {v \in [1..Len(Params(c)) -> 0..1] : Legal(c, v)}
 VaryRaw(c) == {[j \in 1..Len(Params(c)) |-> IF j = i THEN s ELSE 1] : i \in 1..Len(Params(c)), s \in 0..9}
 Vary(c) == {v \in VaryRaw(c) : Legal(c, v)}
 
-Init == \E c \in DOMAIN Schemas : \E f \in {"subsets", "vary"} :
+\* "pairs": two parameters range over all their selectors together, the others present
+PairsRaw(c) == {[j \in 1..Len(Params(c)) |-> IF j = i THEN s ELSE IF j = i2 THEN s2 ELSE 1] :
+                  i \in 1..Len(Params(c)), i2 \in 1..Len(Params(c)), s \in 0..9, s2 \in 0..9}
+Pairs(c) == {v \in PairsRaw(c) : Legal(c, v)}
+
+Init == \E c \in DOMAIN Schemas : \E f \in Families :
            /\ cls = c /\ family = f
-           /\ sel \in (IF f = "subsets" THEN Subsets(c) ELSE Vary(c))
+           /\ sel \in (IF f = "subsets" THEN Subsets(c) ELSE IF f = "vary" THEN Vary(c) ELSE Pairs(c))
 Next == UNCHANGED vars
 
 TypeOK == Legal(cls, sel)
